@@ -66,6 +66,15 @@ def validate_patterns(alphabet=" -.:LRa1'/\n(", maxlen=3):
                     for g in range(1, (rm.re.groups or 0) + 1):
                         if conc(sm.group(g)) != rm.group(g):
                             bad += 1
+                rs = pats[name].search(s)
+                ssr = sp.search(ss)
+                n += 1
+                if z3.is_true(z3.simplify(ssr.ok)) != bool(rs):
+                    bad += 1
+                elif rs:
+                    for g in range(1, (rs.re.groups or 0) + 1):
+                        if conc(ssr.group(g)) != (rs.group(g) or ""):
+                            bad += 1
                 if name in ("_INVALID_CHARS_REMOVE", "_INVALID_CHARS_REPLACE", "_INVALID_FILE_NAME"):
                     for repl in ("", " "):
                         n += 1
